@@ -424,3 +424,12 @@ def field_path(n):
     if n.get("k") == "local":
         return (n["name"], n["id"], list(reversed(fs)))
     return None
+
+
+def anyshow(body, needle):
+    """does some node of body render (spaces removed) to text containing `needle`?  (show() is depth-limited, so a
+    fragment deep inside a large body is only visible when rendering starts near it)"""
+    for n in walk(body):
+        if needle in show(n).replace(" ", ""):
+            return True
+    return False
